@@ -18,8 +18,11 @@ for f in sorted(glob.glob('/verif/seeded/*/meta.json')):
         print(f.replace('/verif/','').replace('meta.json','patch.diff'))
 PY
 )
-  for m in selftest/mutants/$p/*.patch $seeds; do
+  count=0
+  for m in selftest/mutants/$p/unfix_*.patch $seeds $(ls selftest/mutants/$p/*.patch 2>/dev/null | grep -v unfix_); do
     [ -f "$m" ] || continue
+    count=$((count+1))
+    if [ -n "$KV_MUSTFAIL_MAX" ] && [ "$count" -gt "$KV_MUSTFAIL_MAX" ]; then break; fi
     d=$(mktemp -d /tmp/kvmut.XXXXXX)
     rsync -a --exclude .git /repo/ "$d/"
     if ! (cd "$d" && git apply "/verif/$m" 2>/dev/null || patch -p1 -s < "/verif/$m"); then
